@@ -3,6 +3,8 @@ boundary sizes aimed at the case splits of the code and of the proofs)."""
 import random
 
 KINDS = ["random", "runs", "period", "text", "incompressible_tail", "barely", "twosym", "longmatch", "zerorich", "mixed", "lit255", "selfdict"]
+# kinds that need > 64 KB to make sense (used where the caller allows large inputs)
+FAR_KINDS = ["distbound", "runsfar"]
 
 def data(rng, kind, n):
     if n <= 0:
@@ -62,8 +64,19 @@ def data(rng, kind, n):
             out[s:s + l] = rng.randbytes(min(l, n - s))
         return bytes(out)
     if kind == "lit255":
-        # incompressible with exact sizes around 255 multiples handled by caller; random here
-        return rng.randbytes(n)
+        # literal runs whose length sits where x/255 and x>>8 (or x/256) differ, or on a length-byte boundary,
+        # each followed by a match (so that the run is a sequence's literals, not the last run)
+        crit = [255, 256, 257, 509, 510, 511, 512, 764, 765, 766, 767, 768, 1020, 1023, 1024, 1275, 2550, 5624, 5625, 5626, 5881]
+        out = bytearray(rng.randbytes(rng.choice([0, 4, 12, 40])))
+        while len(out) < n:
+            ll = rng.choice(crit) if rng.random() < 0.8 else rng.choice([1, 14, 15, 16, 269, 270, 271])
+            out += rng.randbytes(ll)
+            ml = rng.choice([4, 5, 8, 18, 19, 20, 273, 274, 4096])
+            off = max(1, min(len(out), rng.choice([1, 2, 4, 8, 16, 300])))
+            for i in range(ml):
+                out.append(out[len(out) - off])
+        out += rng.randbytes(rng.choice([5, 12, 13, 40]))
+        return bytes(out)
     if kind == "selfdict":
         # copies from every region of what came before (far and near offsets)
         out = bytearray(rng.randbytes(min(n, 64)))
@@ -81,7 +94,67 @@ def data(rng, kind, n):
             k = rng.choice(["random", "runs", "period", "text", "twosym", "longmatch", "selfdict"])
             out += data(rng, k, min(n - len(out), rng.choice([10, 100, 1000, 10000, 70000])))
         return bytes(out[:n])
+    if kind == "distbound":
+        return _distbound(rng, n)
+    if kind == "runsfar":
+        return _runsfar(rng, n)
     raise ValueError(kind)
+
+
+# ---- generators aimed at the LZ4_DISTANCE_MAX boundary (window edge of the match finders) ----
+def _filler(rng, kind, n):
+    if n <= 0: return b""
+    if kind == "zero": return bytes(n)
+    if kind == "period":
+        per = rng.randbytes(rng.choice([1, 2, 3, 4, 7, 16, 100])); return (per * (n // len(per) + 1))[:n]
+    if kind == "text":
+        words = [rng.randbytes(rng.randrange(2, 9)) for _ in range(30)]
+        out = bytearray()
+        while len(out) < n: out += rng.choice(words) + b" "
+        return bytes(out[:n])
+    return rng.randbytes(n)
+
+def _distbound(rng, n):
+    """a segment W repeated at a distance exactly around LZ4_DISTANCE_MAX (65533..65540, 2^17), with little or much
+    hash-table traffic in between (zero/periodic/text/random filler), optionally preceded by a short (4..6 byte)
+    NEARER match that starts 1..2 bytes earlier, so that 'a better match at ip+1' paths see the far candidate"""
+    out = bytearray(rng.randbytes(rng.randrange(16, 3000)))
+    for _ in range(rng.choice([1, 1, 2])):
+        D = rng.choice([65533, 65534, 65535, 65535, 65536, 65536, 65536, 65537, 65538, 65540, 131071, 131072])
+        L = rng.choice([8, 9, 12, 16, 20, 40, 72, 100, 1000])
+        W = rng.randbytes(L)
+        k = rng.choice([0, 1, 1, 1, 2]); sl = rng.choice([4, 4, 5, 6])
+        lead = rng.randbytes(k)
+        flen = D - L - k
+        fill = bytearray(_filler(rng, rng.choice(["zero", "zero", "period", "text", "random"]), flen))
+        if k and flen > 40:
+            near = lead + W[:max(0, sl - k)]
+            g = min(flen - len(near) - 1, rng.choice([12, 20, 300, 5000, 30000]))
+            fill[flen - g:flen - g + len(near)] = near
+        out += W + bytes(fill) + lead + W + rng.randbytes(rng.randrange(13, 400))
+    return bytes(out)
+
+def _runsfar(rng, n):
+    """runs of one byte value whose starts are about one window (64 KB) apart, the later run longer:
+    the window's lower edge cuts the earlier run (pattern-analysis paths of the HC match finder)"""
+    n = max(n, 70000 + rng.randrange(0, 70000))
+    out = bytearray(rng.randbytes(n))
+    b = rng.randrange(256)
+    l1 = rng.choice([8, 20, 100, 1000, 3000, 8000])
+    p1 = rng.randrange(4, 2000)
+    out[p1:p1 + l1] = bytes([b]) * l1
+    gap = 65535 + rng.choice([-3, -1, 0, 1, 2, 4, l1 // 2, max(0, l1 - 5), l1 - 1, l1, l1 + 1])
+    l2 = l1 + rng.choice([1, 4, 20, 500, 5000])
+    p2 = p1 + gap
+    if p2 + l2 + 20 < n:
+        out[p2:p2 + l2] = bytes([b]) * l2
+    if rng.random() < 0.5:
+        # pattern of period 2 or 4 instead of a single byte
+        per = bytes([rng.randrange(256) for _ in range(rng.choice([2, 4]))])
+        out[p1:p1 + l1] = (per * (l1 // len(per) + 1))[:l1]
+        if p2 + l2 + 20 < n:
+            out[p2:p2 + l2] = (per * (l2 // len(per) + 2))[(gap % len(per)):][:l2]
+    return bytes(out[:n])
 
 BOUNDARY_SIZES = list(range(0, 21)) + [63, 64, 65, 255, 256, 270, 271, 4095, 4096, 4097,
     65535 - 12, 65535, 65536, 65536 + 11, 65536 + 12, 65547, 65548, 70000]
